@@ -109,6 +109,21 @@ func (c *Check) Note(format string, a ...any) {
 	fmt.Println("note: " + s)
 }
 
+// Drift records that the step-level model of a module no longer describes the code although the property holds
+// (the Prop layer explains every such case): a note and a coverage counter, never a verdict.
+func (c *Check) Drift(module string, drifts []Reject) {
+	if len(drifts) == 0 {
+		return
+	}
+	c.Note("MODEL-DRIFT module=%s cases=%d: the code is explained by the Prop layer but not by the step-level machine (first: case %s %s); the machine needs updating, the property is not affected", module, len(drifts), drifts[0].Case, trunc(drifts[0].Why, 300))
+	m, _ := c.Cov["model_drift"].(map[string]any)
+	if m == nil {
+		m = map[string]any{}
+	}
+	m[module] = len(drifts)
+	c.Cov["model_drift"] = m
+}
+
 func (c *Check) HarnessError(msg string) {
 	c.harnessErr = append(c.harnessErr, msg)
 	fmt.Println("HARNESS-ERROR property=" + c.ID + " " + trunc(msg, 3000))
